@@ -237,7 +237,11 @@ class Scenario:
                 async def idle() -> None:
                     # the service adds something to the application's context - not to its own - with a teardown callback: that is
                     # one more teardown step of the root context
-                    app_ctx.add_resource(object(), f"svc_res{res_tid}", teardown_callback=lambda: sc.log("td-run", res_tid, form="resource-added-by-service"))
+                    # (published under two types - an interface and its implementation - with ONE teardown callback)
+                    Impl = type(f"Impl{res_tid}", (), {})  # noqa: N806
+                    Iface = type(f"Iface{res_tid}", (), {})  # noqa: N806
+                    app_ctx.add_resource(Impl(), f"svc_res{res_tid}", types=[Iface, Impl],
+                                         teardown_callback=lambda: sc.log("td-run", res_tid, form="resource-added-by-service"))
                     sc.log("td-reg", res_tid, by=path, phase=phase + "-service")
                     await stop.wait()
 
